@@ -18,7 +18,7 @@ NA = {
 CHECKS = {
     "C07": dict(
         text="Seeded search over arrival schedules (chunk cuts biased to BOM / @charset / multi-byte landmarks, read sizes, short and empty reads, final timing) of a producer -> pipe -> stateful css-codec consumer world, judged step by step against the one-shot codec call (refinement), a CSS 2.1 4.4 reference detector and arrival monotonicity; plus the enumerated single-cut and <=4-byte-prefix sub-sweeps. Sampling, not proof: a clean batch is evidence.",
-        note="Trusts the stdlib codecs as the one-shot/underlying reference; texts without U+0000/U+FEFF; stream consumers only with UTF-8/16/32 and single-byte encodings; three recorded known findings (stream classes have no end-of-stream call; detectencoding_unicode final=None is pinned by the suite).",
+        note="Trusts the stdlib codecs as the one-shot/underlying reference; texts without U+0000/U+FEFF; three recorded known findings (stream classes have no end-of-stream call; detectencoding_unicode final=None is pinned by the suite).",
         technique="deterministic simulation: seeded arrival-schedule search with short/empty-read fault injection against a one-shot reference model",
         ref="DESIGN.md 5 C07",
     ),
